@@ -129,7 +129,12 @@ def _case(rng, i, tier):
         for s in gen.all_strings(desc["V"], mat_n):
             if s not in xs:
                 xs.append(s)
-    return {"id": i, "shape": shape, "R": R, "cfg": desc, "xs": xs, "mat_n": mat_n,
+    tt = None
+    if rng.random() < 0.12:
+        desc, (xs,), _ = gen.intify_terms(desc, xs)
+        tt = rng.choice([None, "float"])
+        shape += "+int_tokens" + ("+" + tt if tt else "")
+    return {"id": i, "shape": shape, "R": R, "cfg": desc, "xs": xs, "mat_n": mat_n, "token_type": tt,
             "perm": rng.randrange(1 << 30), "jitter": rng.randrange(1 << 30) if rng.random() < 0.7 else None}
 
 
